@@ -101,6 +101,12 @@ WeightsSymmetric(fs) ==
         LET a == WBag(fs, f, i, j) b == WBag(fs, f, j, i) IN
         \A x \in 1..Len(a) : Abs(a[x] - b[x]) <= 1
 
+\* a Voronoi cell of a periodic configuration is a bounded convex polygon / polyhedron: at least d + 1 edges / faces.
+\* In a box only one or two cells wide the same neighbour (or the particle itself) is met through several periodic images
+\* and is listed once per shared face - a list with fewer than d + 1 entries has lost faces.
+CellsAreBoundedPolytopes(fs) ==
+  \A f \in Frames(fs) : \A i \in Particles(fs, f) : Cn(fs, f, i) >= Len(fs.L[f]) + 1
+
 VolumesPositive(fs) == \A f \in Frames(fs) : \A i \in Particles(fs, f) : Vol(fs, f, i) > 0
 \* cell volumes sum to the box volume.  Tolerance: every written volume is rounded (N quanta
 \* in all), and freud keeps the box edges in single precision, so the cells tile a box whose
@@ -145,6 +151,7 @@ WhyFilesT(fs, tolerate) ==
   ELSE IF ~WeightsSymmetric(fs) THEN "WeightsSymmetric"
   ELSE IF ~VolumesPositive(fs) THEN "VolumesPositive"
   ELSE IF ~VolumesSumToBox(fs) THEN "VolumesSumToBox"
+  ELSE IF ~CellsAreBoundedPolytopes(fs) THEN "CellsAreBoundedPolytopes"
   ELSE ""
 WhyFiles(fs) == WhyFilesT(fs, 0)
 
